@@ -4,6 +4,7 @@ from __future__ import annotations
 import ast
 import re as _re
 
+from ..families import is_module_function
 from ..model import AnalysisError, Program
 from ..report import Run
 from ..skel import function_skeletons, quoted_spans, render, skeletons
@@ -46,6 +47,40 @@ def classify_inner(part) -> str:
     if "json.dumps" in s or ".dumps(" in s:
         return "json"
     return "raw"
+
+
+ROW_COUNT_SLOTS = {"_limit", "_offset"}
+
+
+def _into_row_count_slot(fnode: ast.AST, call: ast.Call) -> bool:
+    """the call's result is what an assignment stores into self._limit / self._offset (directly or through cast())"""
+    for st in ast.walk(fnode):
+        if isinstance(st, (ast.Assign, ast.AnnAssign)) and st.value is not None:
+            tg = st.targets if isinstance(st, ast.Assign) else [st.target]
+            if not any(isinstance(t, ast.Attribute) and t.attr in ROW_COUNT_SLOTS and isinstance(t.value, ast.Name) for t in tg):
+                continue
+            v = st.value
+            while isinstance(v, ast.Call) and isinstance(v.func, ast.Name) and v.func.id == "cast" and len(v.args) == 2:
+                v = v.args[1]
+            if v is call:
+                return True
+    return False
+
+
+def _custom_wrapper_receivers(program: Program, c, name: str) -> list:
+    """receiver classes of method <name> defined in c (c and the subclasses inheriting it) whose constructor installs a
+    dialect value wrapper (`wrapper_cls=` handed to the base constructor)"""
+    out = []
+    for k in program.all_classes():
+        if not (k is c or k.is_subclass_of(c)) or k.resolve(name) is not c.methods.get(name):
+            continue
+        for kk in k.mro:
+            init = kk.methods.get("__init__")
+            if init is not None and any(isinstance(x, ast.Call) and any(kw.arg == "wrapper_cls" and not (isinstance(kw.value, ast.Name) and kw.value.id == "wrapper_cls") for kw in x.keywords)
+                                        for x in ast.walk(init.node)):
+                out.append(k)
+                break
+    return out
 
 
 def check(program: Program, run: Run) -> None:
@@ -100,8 +135,8 @@ def check(program: Program, run: Run) -> None:
                         jok = ".replace(" in jt and "'\\\\'" in jt
                         jsrc = getattr(p_, "src", ()) or ()
                         jfn = jsrc[0] if jsrc else f.qualname
-                        jchain = [x for x in (jsrc[3] if len(jsrc) > 3 else ()) if not x.startswith("utils.")]
-                        if jfn.startswith("utils.") and jchain:
+                        jchain = [x for x in (jsrc[3] if len(jsrc) > 3 else ()) if not is_module_function(program, x)]
+                        if is_module_function(program, jfn) and jchain:
                             jfn = jchain[-1]
                         if (jfn, jt[:60]) in seen:
                             continue
@@ -134,8 +169,8 @@ def check(program: Program, run: Run) -> None:
                             k = "str-subclass"
                     src = getattr(p, "src", ()) or ()
                     fn = src[0] if src else f.qualname
-                    chain = [x for x in (src[3] if len(src) > 3 else ()) if not x.startswith("utils.")]
-                    if fn.startswith("utils.") and chain:
+                    chain = [x for x in (src[3] if len(src) > 3 else ()) if not is_module_function(program, x)]
+                    if is_module_function(program, fn) and chain:
                         fn = chain[-1]
                     what = show(p.value if isinstance(p, Hole) else p)[:60]
                     site = (fn, what)
@@ -166,6 +201,17 @@ def check(program: Program, run: Run) -> None:
     if sinks < 3:
         raise AnalysisError(f"instance count below floor: quote-wrapping sinks {sinks}")
 
+    # ---- R9: a string operation applied to text that rendered children have already printed rewrites the literals inside
+    from ..skel import recv_path as _rp, transformed_renderings
+    for c_, fn_, op_, inner_ in transformed_renderings(program):
+        what = ", ".join(sorted({_rp(sp.recv) for sp in inner_}))[:80]
+        run.ob("C05/R9 rendered literals reach the statement untouched", f"{fn_}:{op_}", False, detail=what)
+        run.finding(f"C05/rendered-text-transformed:{fn_}:{op_}",
+                    f"{fn_} applies `{op_}` to text that already contains the rendering of {what}: a string literal printed by such a child is rewritten with it "
+                    "(whitespace collapsed, characters replaced or re-cased), so the literal no longer decodes to the original value",
+                    where=f"{inner_[0].src[2]}:{inner_[0].src[1]}" if inner_[0].src else "", rule="R9")
+    run.ob("C05/R9 rendered literals reach the statement untouched", "all renderers", True, nontrivial=False)
+
     # ---- R2
     vw = program.cls("ValueWrapper")
     base_consults = "ctx.dialect" in show(render(program, vw, "get_value_sql")[0], -30)
@@ -183,14 +229,17 @@ def check(program: Program, run: Run) -> None:
                     continue
                 passes = any(k.arg == "wrapper_cls" for k in n.keywords) or len(n.args) > 1
                 arg = ast.unparse(n.args[0])
-                PAG = ("limit", "offset", "slice", "fetch_next", "groupby", "orderby")
-                if name in PAG:
-                    continue   # integers / order keys: strings become Fields before this point, no string literal is produced
+                if name in ("groupby", "orderby"):
+                    continue   # order / group keys: strings become Fields before this point, no string literal is produced
+                if not _custom_wrapper_receivers(program, c, name):
+                    continue   # no receiver of this method has a dialect wrapper: the generic one *is* the dialect's
+                if _into_row_count_slot(f.node, n):
+                    continue   # LIMIT / OFFSET row counts are numbers (C09 decides their slots)
                 if name.startswith("_") and not name.startswith("__"):
-                    # a private helper reached only from those methods (e.g. `_row_count(value)`) carries the same values
-                    callers = {m2 for k2 in c.mro for m2, f2 in k2.methods.items() if m2 != name and any(
-                        isinstance(x, ast.Call) and isinstance(x.func, ast.Attribute) and x.func.attr == name for x in ast.walk(f2.node))}
-                    if callers and callers <= set(PAG):
+                    # a private helper whose every result goes into a row-count slot (e.g. `self._limit = self._row_count(value)`)
+                    uses = [(f2, x) for k2 in c.mro for m2, f2 in k2.methods.items() if m2 != name for x in ast.walk(f2.node)
+                            if isinstance(x, ast.Call) and isinstance(x.func, ast.Attribute) and x.func.attr == name]
+                    if uses and all(_into_row_count_slot(f2.node, x) for f2, x in uses):
                         continue
                 npos += 1
                 ok = passes or base_consults
